@@ -46,23 +46,38 @@ def check(ctx: Ctx) -> list[RuleResult]:
     out.append(r1)
 
     # ---- R2 ---------------------------------------------------------------------------
-    r2 = RuleResult("R2", "views do not raise on payload arithmetic / computed keys", "may_raise(view) contains no ArithmeticError↓, no KeyError from a computed key and no IndexError from a constant index into a list/tuple of unproven length", min_instances=40)
+    r2 = RuleResult("R2", "views do not raise on payload arithmetic / computed keys", "may_raise(view) contains no ArithmeticError↓, no KeyError from a computed key, no IndexError from a constant index into a list/tuple of unproven length and no AssertionError from an assert on payload-derived data", min_instances=40)
     views = [f for f in repo.funcs.values() if f.module.name.startswith("ramses_rf") and f.name in VIEW_NAMES and f.is_property and f.parent is None]
     seen: dict[str, list[str]] = {}
     det = {}
+    # memo premise (also used by R4): a *stored* message was filed under msg._pkt._ctx, whose computation (_pkt_idx) already
+    # evaluated Frame._has_array inside the dispatcher's fences; the result is memoised before the asserts, so a later read from
+    # a view cannot reach them. Re-established here: the memo test is the first statement of Frame._has_array and _handle_msg
+    # keys the store on _ctx.
+    _memo_f = repo.func("ramses_tx.frame.Frame._has_array")
+    _first = _memo_f.node.body[1] if isinstance(_memo_f.node.body[0], ast.Expr) else _memo_f.node.body[0]
+    _memo_ok = isinstance(_first, ast.If) and "_has_array_ is not None" in norm(_first.test) and isinstance(_first.body[0], ast.Return)
+    _keyed_on_ctx = any(isinstance(n, ast.Attribute) and n.attr == "_ctx" for n in own_nodes(repo.func("ramses_rf.entity_base._MessageDB._handle_msg").node))
+    memo_views = _memo_ok and _keyed_on_ctx
     for f in views:
         r2.instances += 1
         r2.nontrivial += 1
         esc = ea.may_raise(f)
-        bad = [c for c in esc if ea.h.is_sub(c, "builtins.ArithmeticError") or c in ("builtins.KeyError", "builtins.IndexError")]
+        bad = [c for c in esc if ea.h.is_sub(c, "builtins.ArithmeticError") or c in ("builtins.KeyError", "builtins.IndexError", "builtins.AssertionError")]
         if not bad:
             r2.ok({"view": f.short, "may_raise": sorted(short_cls(c) for c in esc)})
             continue
+        n_bad = 0
         for c in bad:
             for o, path in ea.roots(f, c):
+                if memo_views and c == "builtins.AssertionError" and o.func is _memo_f:
+                    continue  # memoised at store time (see above)
+                n_bad += 1
                 k = f"{short_cls(c)}@{origin_key(o)}"
                 seen.setdefault(k, []).append(f.short)
                 det.setdefault(k, (o, c, path))
+        if not n_bad:
+            r2.ok({"view": f.short, "may_raise": sorted(short_cls(c) for c in esc), "discharged": "Frame._has_array asserts (memoised at store time)"})
     for k, ents in seen.items():
         o, c, path = det[k]
         r2.fail(k, o.where(), f"{short_cls(c)} can leave a public view: {o.kind} {o.detail} in {o.func.short}", [f"views: {', '.join(sorted(set(ents))[:8])}{' ...' if len(set(ents)) > 8 else ''} ({len(set(ents))})", f"source: {norm(o.node)[:140]}", "call path: " + " > ".join(p.short for p in path)])
